@@ -114,6 +114,64 @@ def rand_bytes(rng, n):
     return bytes(rng.randint(0, 255) for _ in range(n))
 
 
+def opaque8(rng):
+    """PING payloads are opaque: any 8 bytes"""
+    return rng.choice([rand_bytes(rng, 8), b'\xff\xfe\x00\x80\xc3\x28\xa0\xa1', b'\0' * 8, b'\xff' * 8,
+                       'caf\u00e9 \u2192'.encode()[:8].ljust(8, b'\x80')])
+
+
+def any_error_code(rng):
+    """any 32-bit error code: the 14 defined ones and unknown ones"""
+    return rng.choice([rng.randint(0, 13), rng.randint(0, 13), 14, 0xff, 0xdead, 0x7fffffff, 0x80000000,
+                       0xffffffff, rng.randint(14, 0xffffffff)])
+
+
+DEBUG_DATA = [b'', b'', b'bye', b'too_many_pings', 'sch\u00f6n \u2192 \U0001f600'.encode(), b'\xff\xfe\x00\x80binary',
+              b'\x80', b'\xc3\x28', b'\xed\xa0\x80', b'\x00' * 5, bytes(range(256))]
+
+
+def gen_goaway(rng, end):
+    """the GOAWAY class: error code x last_stream_id x opaque debug data (RFC 7540 6.8: 'opaque data')"""
+    ids = IDS[end]
+    last = rng.choice([0, ids['K'], ids['V'] - 2, ids['V'], 0x7fffffff, ids['new_peer']])
+    code = any_error_code(rng)
+    dbg = rng.choice(DEBUG_DATA + [rand_bytes(rng, rng.choice([1, 7, 40]))])
+    one = P.frame_bytes(0x7, rng.choice([0, 0, 0xff]), 0, struct.pack('>II', last, code) + dbg)
+    return fr(one * rng.choice([1, 1, 1, 2]), False,
+              'GOAWAY last=%d code=%#x debug=%s' % (last, code, dbg[:12].hex() or '-'))
+
+
+def gen_field_values(rng, end, phase):
+    """well-formed RST_STREAM / PING / SETTINGS / WINDOW_UPDATE / GOAWAY frames with arbitrary LEGAL field
+    values (what they do to V or to the connection is legitimate: not labelled tolerable)"""
+    ids = IDS[end]
+    V = ids['V']
+    k = rng.choice(['goaway', 'goaway', 'goaway', 'rst', 'rst', 'ping', 'settings', 'wu'])
+    if k == 'goaway':
+        return gen_goaway(rng, end)
+    if k == 'rst':
+        sid = rng.choice([V, V, ids['F']])
+        code = any_error_code(rng)
+        return fr(P.frame_bytes(0x3, rng.choice([0, 0xff]), sid, struct.pack('>I', code)), False,
+                  'RST_STREAM sid %d code %#x' % (sid, code))
+    if k == 'ping':
+        return fr(P.frame_bytes(0x6, rng.choice([0, 1]), 0, opaque8(rng)) * rng.choice([1, 3]), False,
+                  'PING with opaque bytes')
+    if k == 'settings':
+        pairs = [(rng.choice([0x7, 0x10, 0x99, 0xfffe, 0xffff]),
+                  rng.choice([0, 1, 0x7fffffff, 0xffffffff, rng.randint(0, 0xffffffff)]))
+                 for _ in range(rng.randint(1, 4))]
+        # plus legal values of known ids that do not stall anybody
+        pairs += rng.choice([[], [(0x6, rng.choice([0, 1, 0xffffffff]))], [(0x3, rng.choice([100, 0xffffffff]))],
+                             [(0x5, rng.choice([16384, 0xffffff]))]])
+        return fr(P.frame_bytes(0x4, 0, 0, b''.join(struct.pack('>HI', a, b) for a, b in pairs)), False,
+                  'SETTINGS with arbitrary legal values %r' % (pairs,), glob=True)
+    sid = rng.choice([0, 0, ids['F']] + ([V] if (end == 'client' or phase != 'idle') else []))
+    inc = rng.choice([1, 2, 0xffff, 0x10000, 0x3fffffff, 0x7fffffff - 65535 - 1000000])
+    return fr(P.frame_bytes(0x8, rng.choice([0, 0xff]), sid, struct.pack('>I', inc)), False,
+              'WINDOW_UPDATE sid %d increment %d' % (sid, inc))
+
+
 def mutate(rng, data):
     b = bytearray(data)
     for _ in range(rng.choice([1, 1, 2, 3, 6])):
@@ -185,14 +243,15 @@ def gen_tolerable(rng, end, phase):
         return fr(P.frame_bytes(0x2, rng.choice([0, 0, rng.randint(0, 255)]), sid, payload), True,
                   'PRIORITY sid %d dep %d' % (sid, dep))
     if k == 'ping':
-        return fr(P.frame_bytes(0x6, rng.choice([0, 0, 0xfe]), 0, rand_bytes(rng, 8)), True, 'PING')
+        return fr(P.frame_bytes(0x6, rng.choice([0, 0, 0xfe]), 0, opaque8(rng)), True, 'PING')
     if k == 'pingack':
-        return fr(P.frame_bytes(0x6, rng.choice([1, 0xff]), 0, rand_bytes(rng, 8)), True,
+        return fr(P.frame_bytes(0x6, rng.choice([1, 0xff]), 0, opaque8(rng)), True,
                   'PING ack with unknown payload')
     if k == 'settings_unknown':
         n = rng.randint(1, 3)
         payload = b''.join(struct.pack('>HI', rng.choice([0x10, 0x99, 0xffff, rng.randint(0x10, 0xffff)]),
-                                       rng.randint(0, 0xffffffff)) for _ in range(n))
+                                       rng.choice([0, 1, 0x7fffffff, 0x80000000, 0xffffffff,
+                                                   rng.randint(0, 0xffffffff)])) for _ in range(n))
         return fr(P.frame_bytes(0x4, 0, 0, payload), True, 'SETTINGS with unknown ids')
     if k == 'settings_empty':
         return fr(P.frame_bytes(0x4, 0, 0, b''), True, 'empty SETTINGS')
@@ -210,7 +269,7 @@ def gen_tolerable(rng, end, phase):
                   'WINDOW_UPDATE sid %d' % sid)
     if k == 'rst_finished':
         return fr(P.frame_bytes(0x3, rng.choice([0, 0xff]), ids['F'],
-                                struct.pack('>I', rng.choice([0, 5, 8, 0xffffffff]))),
+                                struct.pack('>I', any_error_code(rng))),
                   True, 'RST_STREAM on the finished stream')
     if k == 'info':
         st = str(rng.choice([100, 101, 102, 103, 199]))
@@ -239,12 +298,14 @@ def gen_any(rng, end, phase):
         return fr(P.frame_bytes(t, rng.choice([0, 1, 4, 5, 8, 0x20, 0x2d, 0xff, rng.randint(0, 255)]), sid,
                                 rand_bytes(rng, n)), False, 'random type %d sid %d len %d' % (t, sid, n),
                   glob=(t == 4))
-    if r < 0.38:
+    if r < 0.36:
         n = rng.choice([1, 3, 8, 9, 10, 24, 60])
         return fr(rand_bytes(rng, n), False, 'raw random bytes (%d)' % n, framed=False)
     req = list(P.REQ_HEADERS)
     resp = list(P.RESP_HEADERS)
-    if end == 'client' and r < 0.50:
+    if r < 0.52:
+        return gen_field_values(rng, end, phase)
+    if end == 'client' and r < 0.62:
         # a stream the peer opens towards a client, followed IN THE SAME CHUNK by 1-4 more frames on it
         # or on the connection (h2 has digested them all before accept() looks at the stream)
         n2 = ids['new_peer']
